@@ -38,10 +38,8 @@ COMPONENTS = {
 }
 ASSUMPTIONS = [
     'hit guarantee asserted only in the loss-free honest family with round trip below the 5 s RPC timeout; a quarter of those '
-    'runs are YOUNG networks (every node joined, but only 15..200 s ago): a node waits 300 s before it pings a newcomer that '
-    'sent it a request, so young announcements can go to the wrong nodes - genuine, recorded as known finding '
-    'C12-young-network (site young=True), the audit\'s three-line repair (ping at once while the bucket has room) '
-    'was tried and made other clauses fail in this environment, so it was not applied',
+    'runs are YOUNG networks (every node joined, but only 15..200 s ago); thin announcers of the paging family sit at the far '
+    'end of the id space (a real announcer is not closer to the hash than the nodes it stores on)',
     'a lookup is judged `must hit` only if it ended before announce start + 24 h - 60 s, `must miss` only if it started after announce end + 24 h',
     'fabricated contacts are silent addresses unless the behaviour says otherwise (alias_honest: a live honest node; key_as_id, '
     'endless_closer: the hostile node itself); endless_pages / endless_closer never run out of fresh material',
@@ -323,6 +321,12 @@ def run_dht(scenario, run, monitor=False, corrupt_factory=None, max_steps=12_000
     # 28..40 nodes joining at once over links of up to a second one way: see known finding C12-young-network (the
     # same five-minute verification delay keeps such a network sparse well past ten minutes)
     big_slow = n >= 28 and float((scenario.get('net') or {}).get('latency', [0, 0])[1]) >= 1.0
+    def far_id(key, tr):
+        # announcers are ordinary peers somewhere in the id space, NOT nodes that happen to be closer to the blob's hash
+        # than the node they store on (a real announcer stores on the closest nodes it finds): their ids are taken from
+        # the far end, so that a storing node stays inside the searcher's window of closest contacts
+        return (int.from_bytes(key, 'big') ^ (((1 << 384) - 1) ^ tr.getrandbits(300))).to_bytes(48, 'big')
+
     thin = {}           # blob int -> list of ThinAnnouncer
     background = []     # harness tasks that keep announcing while lookups run
     judged = [0]
@@ -537,7 +541,7 @@ def run_dht(scenario, run, monitor=False, corrupt_factory=None, max_steps=12_000
                     await asyncio.sleep(op.get('start_in', 1.0))
                     for c in range(op['count']):
                         addr = (f"{70 + c // 200}.{1 + c % 200}.{8}.{9}", 5000 + base + c)
-                        ta = ThinAnnouncer(world, addr, tr.getrandbits(384).to_bytes(48, 'big'), 7000 + base + c)
+                        ta = ThinAnnouncer(world, addr, far_id(key, tr), 7000 + base + c)
                         world.net.attach(addr, ta)
                         try:
                             if await ta.announce(world.addr_of[t], key, tr):
@@ -558,7 +562,7 @@ def run_dht(scenario, run, monitor=False, corrupt_factory=None, max_steps=12_000
                 lst = thin.setdefault(op['blob'], [])
                 for c in range(op['count']):
                     addr = (f"{60 + c // 200}.{1 + c % 200}.{7}.{9}", 5000 + c)
-                    ta = ThinAnnouncer(world, addr, tr.getrandbits(384).to_bytes(48, 'big'), 6000 + c)
+                    ta = ThinAnnouncer(world, addr, far_id(key, tr), 6000 + c)
                     world.net.attach(addr, ta)
                     ok = False
                     for _attempt in range(3):
